@@ -571,6 +571,10 @@ func (g *c15) ids(n int) []string {
 var pageSizes = []int32{-5, -4, -3, -2, -1, 0, 1, 2, 3, 7, 50, 1000, 5000}
 
 func (g *c15) randomSize(n int) int32 {
+	if g.r.Chance(6) {
+		// the ends of the int32 range
+		return []int32{2147483647, -2147483648, 2147483646, -2147483647}[g.r.Intn(4)]
+	}
 	switch g.r.Intn(4) {
 	case 0:
 		return int32(g.r.Range(1, n+2))
@@ -718,6 +722,12 @@ func genC15(o *vcoq.Out, r *vcoq.Rand, tier string) error {
 		ns = append(ns, n)
 	}
 	if thorough {
+		// four rounds over the small sizes (fresh random ids each time), then the boundary sizes
+		for round := 0; round < 3; round++ {
+			for n := 0; n <= 60; n++ {
+				ns = append(ns, n)
+			}
+		}
 		ns = append(ns, 999, 1000, 1001)
 	} else {
 		ns = append(ns, 1001) // the cap of 1000 is only visible on a collection larger than it
